@@ -573,8 +573,9 @@ def _compute_form_ir(
         # but FFCx needs integers, so otherwise = -1
         integral_type = itg_data.integral_type
         # -1 is reserved for "otherwise": user supplied ids must be non-negative
-        if any(sid != "otherwise" and sid < 0 for sid in itg_data.subdomain_id):
-            raise ValueError("Integral subdomain IDs must be non-negative.")
+        # and fit in the (32 bit) int of ufcx_form.form_integral_ids
+        if any(sid != "otherwise" and not 0 <= sid < 2**31 for sid in itg_data.subdomain_id):
+            raise ValueError("Integral subdomain IDs must be non-negative and fit in a C int.")
         subdomain_ids = [sid if sid != "otherwise" else -1 for sid in itg_data.subdomain_id]
         ir["subdomain_ids"][integral_type] += subdomain_ids
         for _ in range(len(subdomain_ids)):
